@@ -268,6 +268,16 @@ def run(tier):
                 for osd in ("b", "a", "d"):
                     plans.append({"kind": "hist", "slots": 9, "ops": ops, "os": osd, "walk": True,
                                   "src": "directed-grow-in-place-next-to-big-free-neighbour"})
+    # directed family "exact fit of the designated victim": pin, X (size s), pin, top taken away; X freed
+    # (binned), a small T allocated (splits X's chunk: the remainder becomes dv) and freed (dv grows back to
+    # exactly X's old chunk), then malloc(s) again: it fits dv exactly while top cannot serve it - no OS
+    # request may be made (hole rule: every live block near X's old extent was there when X was freed)
+    for s_req in (56, 120, 232, 233, 504, 888, 1016, 5000, 70000):
+        for t_req in (1, 24):
+            ops = [["m", 0, 40, 16], ["m", 1, s_req, 16], ["m", 2, 40, 16], ["t", 3, 32], ["f", 1], ["m", 1, t_req, 16], ["f", 1],
+                   ["m", 1, s_req, 16], ["m", 4, 24, 16], ["f", 1], ["f", 4], ["f", 0], ["f", 2], ["f", 3]]
+            for osd in (("b",) if quick else ("b", "a", "d")):
+                plans.append({"kind": "hist", "slots": 5, "ops": ops, "os": osd, "walk": True, "src": "directed-exact-dv-fit"})
     # multi-threaded: T threads share one allocator behind tiny-std's own Mutex (lock, one call,
     # unlock - the composition GlobalDlMalloc uses); each thread repeats a TLC-generated workload
     n_mt = 12 if quick else 150
@@ -404,7 +414,7 @@ def run(tier):
         "SteadyState: memory still held at a repetition mark after the first N/2 repetitions <= the most ever held during the first N/2 repetitions + one granularity (a heap that is trimmed after some repetitions and not after others - the OS placed a segment differently - is not growing); runs whose marks after repetition 2 exceed the marks of repetitions 1..2 by more than a granularity are counted as runs_with_transient_after_rep2, not judged",
         "Envelope: footprint <= 2 x peak padded demand + 2 x trim threshold, padded demand of a block = size + 2 x align + 256 + granularity; judged ONLY on allocate-all/free-all workloads (there every block can at worst have a mapping of its own, which the padding covers); on churn, queue and multi-threaded runs blocks of different sizes come and go while others stay, external fragmentation of any allocator can exceed a fixed factor there, so those runs are judged by NoGratuitousMap, ReleaseOnce and (fixed OS policy) SteadyState",
         "NoGratuitousMap exempts requests above a direct-mmap threshold only if the code under test has such a path (constant MMAP_THRESHOLD / fn mmap_alloc in dlmalloc.rs); the pinned port has none, so every request is judged",
-        "NoGratuitousMap, exact hole rule: an OS request of alignment <= 16 is also gratuitous while the extent of a freed block of at least the requested size exists near which (128 bytes) nothing has been placed or unmapped since and whose free did not itself hand memory back to the OS (at most 64 such extents are remembered); TLC checks the rule on the chunk-level design DlHeapMC (it found the last condition; scaled guard 2 fails, 6 = header + minimal chunk suffices, real 128 >= 48)",
+        "NoGratuitousMap, exact hole rule: an OS request of alignment <= 16 is also gratuitous while the extent of a freed block of at least the requested size exists such that every live block within 256 bytes of it was already there, unchanged, when that block was freed, nothing within that window went back to the OS since and the free itself made no OS call (at most 64 such extents are remembered); TLC checks the rule on the chunk-level design DlHeapMC (it found the last condition; scaled guard 6 fails, 10 = foot + header + padding and 16 hold, real 256 >= 118)",
         "NoGratuitousMap: an OS request is gratuitous if size + 2 x align + 256 bytes fit into one block-free extent of a single OS-granted piece",
         "real-OS runs (raw syscall wrappers against the real kernel): footprint = growth of the process' VmSize, which also contains whatever the recorder itself maps (its output buffer is pre-reserved); only SteadyState is judged there (60 repetitions, baseline 30)",
         "SteadyState is judged only where the OS policy is the same in every repetition (always below / above / disjoint); runs with a random placement per mapping are judged by Envelope, NoGratuitousMap, ReleaseOnce only",
